@@ -2175,6 +2175,7 @@ ure_exec(ure_dfa_t dfa, int flags, ucs2_t *text, unsigned long textlen,
 {
   int i, j, matched, found, skip;
   unsigned long ms, me;
+  unsigned long ams, ame; /* last complete match of the current attempt */
   ucs4_t c;
   ucs2_t *sp, *ep, *lp;
   _ure_dstate_t *stp;
@@ -2196,6 +2197,7 @@ ure_exec(ure_dfa_t dfa, int flags, ucs2_t *text, unsigned long textlen,
   ep = sp + textlen;
 
   ms = me = ~0;
+  ams = ame = ~0;
 
   stp = dfa->states;
 
@@ -2311,14 +2313,34 @@ ure_exec(ure_dfa_t dfa, int flags, ucs2_t *text, unsigned long textlen,
       }
     }
 
+    if (matched && stp->accepting) {
+      ams = ms;
+      ame = me;
+    }
+
     if (matched == 0) {
       if (stp->accepting == 0) {
-	/*
-	 * If the last state was not accepting, then reset
-	 * and start over.
-	 */
-	stp = dfa->states;
-	ms = me = ~0;
+	if (ams != (unsigned long) ~0) {
+	  /*
+	   * The attempt went on behind a complete match and
+	   * failed ("AB(CD)?" on "ABCX"): report that match.
+	   */
+	  ms = ams;
+	  me = ame;
+	  found = 1;
+	} else {
+	  /*
+	   * If the last state was not accepting, then reset
+	   * and start over. An attempt which failed after its
+	   * first character is resumed at the character following
+	   * its start, or an occurrence beginning within the
+	   * failed attempt ("ab" in "aab") is missed.
+	   */
+	  if (ms != (unsigned long) ~0)
+	    sp = text + ms + 1;
+	  stp = dfa->states;
+	  ms = me = ~0;
+	}
       } else
 	/*
 	 * The last state was accepting, so terminate the matching
@@ -2354,8 +2376,11 @@ ure_exec(ure_dfa_t dfa, int flags, ucs2_t *text, unsigned long textlen,
     }
   }
 
-  if (found == 0)
-    ms = me = ~0;
+  if (found == 0) {
+    /* The text ended within an attempt which had a complete match. */
+    ms = ams;
+    me = ame;
+  }
 
   *match_start = ms;
   *match_end = me;
